@@ -1,4 +1,4 @@
 SPECIFICATION FairSpec
-INVARIANTS LineOK FrameOK
+INVARIANTS LineOK FrameOK StopsAtError
 PROPERTY Finishes
 CHECK_DEADLOCK FALSE
